@@ -74,7 +74,7 @@ func c11Oracle(c ev.Case) Res {
 	case "nul":
 		// In = s, N = ctx | pos<<8 | count<<28
 		s := c.In
-		ctx, pos, cnt := c.N&0xff, (c.N>>8)&0xfffff, (c.N>>28)&0x3ff
+		ctx, pos, cnt := c.N&0xff, (c.N>>8)&0xfffff, (c.N>>28)&0xfffff
 		if ctx > 4 || pos <= 0 || pos >= len(s) || cnt < 1 {
 			return Res{}
 		}
@@ -169,6 +169,37 @@ func TestC11(t *testing.T) {
 		return ev.Case{Kind: "case", In: s, In2: drawMask(rt, s, xssExempt(s))}
 	})
 
+	// names spelled with the code points strings.ToUpper folds into ASCII (U+0131 for i, U+017F for s): the case
+	// relation must hold whichever way the library folds them
+	var ufv []string
+	for _, nm := range []string{"script", "iframe", "style", "isindex", "noscript", "listener", "link"} {
+		for _, sub := range [][2]string{{"i", "\xc4\xb1"}, {"s", "\xc5\xbf"}} {
+			if strings.Contains(nm, sub[0]) {
+				n2 := strings.Replace(nm, sub[0], sub[1], 1)
+				ufv = append(ufv, "<"+n2+">", "<"+n2+" x>", "'><"+n2+">")
+			}
+		}
+	}
+	for _, nm := range []string{"onclick", "onerror", "onsubmit", "onresize", "src", "style", "action", "xlink:href", "dynsrc", "lowsrc", "datasrc"} {
+		for _, sub := range [][2]string{{"i", "\xc4\xb1"}, {"s", "\xc5\xbf"}} {
+			if strings.Contains(nm, sub[0]) {
+				n2 := strings.Replace(nm, sub[0], sub[1], 1)
+				ufv = append(ufv, "<img src=x "+n2+"=javascript:alert(1)>", "' "+n2+"=javascript:x '", "<a "+n2+"='javascript:x'>")
+			}
+		}
+	}
+	ufv = append(ufv, "<a href=java\xc5\xbfcript:x>", "<a href=v\xc4\xb1ew-source:x>", "<!doctype x", "<?\xc4\xb1mport x>", "<!ent\xc4\xb1ty x>", "<!--[\xc4\xb1f x]>")
+	p = c.rec.NewPart("unicode_fold_names_masks", fmt.Sprintf("%d vectors whose tag / attribute / scheme name is spelled with U+0131 or U+017F x every mask over the ASCII letters (<= 12) or 304 masks", len(ufv)), false, true, "")
+	c.ParRange(p, int64(len(ufv)), func(w *Worker, i int64) {
+		s := ufv[i]
+		ex := xssExempt(s)
+		for m := 0; m < 304; m++ {
+			if s2 := maskCase(s, ex, m, int(i)); s2 != s {
+				w.Judge(ev.Case{Kind: "case", In: s, In2: s2})
+			}
+		}
+	})
+
 	// (b) NUL insertion: every vector x every context x every inside position x 1 NUL (+ 3 NULs at the first position)
 	p = c.rec.NewPart("nul_vectors_all_positions", "every XSS grammar vector (stride-sampled) x 5 contexts x every position strictly inside a name token x {1 NUL} (+ {3 NULs} at the first position)", false, true, "")
 	stride := pick(7, 1)
@@ -204,8 +235,23 @@ func TestC11(t *testing.T) {
 				if j%3 != 0 {
 					continue
 				}
-				for _, cnt := range []int{8, 44, 45, 46, 47, 48, 49, 50, 64, 100} {
+				for _, cnt := range []int{8, 44, 45, 46, 47, 48, 49, 50, 64, 100, 255, 256, 1000} {
 					w.Judge(nulCase(s, ctx, ps, cnt))
+				}
+			}
+		}
+	})
+
+	p = c.rec.NewPart("nul_very_long_runs", "NUL runs of 4,100 and 70,000 bytes inside the names of 12 vectors, every context", false, true, "")
+	longv := []string{"<script>", "<iframe x>", "<img src=x onerror=alert(1)>", "<a href=javascript:x>", "' onclick=1 '", "\" style=x \"", "<a xmlns=x>", "<set attributename=onclick>", "<xss>", "x onload=1", "<a xlink:href=javascript:x>", "` datasrc=x `"}
+	c.ParRange(p, int64(len(longv)), func(w *Worker, i int64) {
+		s := longv[i]
+		for ctx := 0; ctx < 5; ctx++ {
+			for j, ps := range namePositions(s, ctx) {
+				if j%2 == 0 {
+					for _, cnt := range []int{4100, 70000} {
+						w.JudgeSlow(ev.Case{Kind: "nul", In: s, N: ctx | ps<<8 | cnt<<28})
+					}
 				}
 			}
 		}
